@@ -1269,5 +1269,7 @@ pub proof fn lemma_nonempty_mono(v: Seq<&[u8]>, i: int, j: int)
     }
 }
 
+//@ include lib/distinfo_roundtrip.rs
+
 } // verus!
 fn main() {}
